@@ -306,6 +306,9 @@ func checkMetafile(st *Stats, label string, p *L.Project) bool {
 		fail("metafile-is-not-json", "parse", err.Error(), "valid JSON")
 		return true
 	}
+	if !strings.HasPrefix(label, "targeted") || strings.HasSuffix(label, "/2") {
+		collectDoc(st, label, strings.Replace(b.Metafile, dir+"/", "/W/", -1), true)
+	}
 	abs := p.Opt.MetafileStyle == "abs"
 	inKey := func(rel string) string {
 		if abs {
